@@ -197,7 +197,7 @@ def run(prop, tier):
             ncorpus += 1
 
     if tier == "quick":
-        plan = [(ck.seed, 6000, 800, False)]
+        plan = [(ck.seed, 20000, 2500, False)]
     else:
         plan = [(ck.seed, 60000, 6000, True), (ck.seed + 1000, 60000, 6000, False), (ck.seed + 2000, 60000, 6000, False)]
     for sd, nfmt, nbe, exh in plan:
